@@ -89,7 +89,7 @@ func c03Case(c *fw.Case) {
 		spec.CreateType = "t" + fmt.Sprint(r.Intn(99))
 	}
 	b := spec.Build(r)
-	ns := fw.Pick(r, []string{"did:sidetree", "did:ion", "did:orb:uAAA", "x"})
+	ns := fw.Pick(r, []string{"did:sidetree", "did:ion", "did:orb:uAAA", "x", "did:sidetree:", "did:ion:", ":", ""})
 	c.Evals(1)
 	op, err := st.Parser.Parse(ns, b.Request)
 	w := map[string]interface{}{"request": string(b.Request), "configuration": cfg, "namespace": ns}
@@ -288,6 +288,20 @@ func c03Case(c *fw.Case) {
 			} else {
 				dl(q)["patches"] = []interface{}{gen.PAddAka("did:example:replaced")}
 			}
+		}},
+		{"delta.patch-action-respelled", func(q map[string]interface{}) {
+			// another name for the same action (a historic spec name, another letter case, blanks around it) is another delta
+			ps := dl(q)["patches"].([]interface{})
+			i := r.Intn(len(ps))
+			pm := map[string]interface{}{}
+			for k, v := range ps[i].(map[string]interface{}) {
+				pm[k] = v
+			}
+			act := fmt.Sprint(pm["action"])
+			legacy := map[string]string{"add-services": "add-service-endpoints", "remove-services": "remove-service-endpoints", "add-public-keys": "add-public-key", "remove-public-keys": "remove-public-key",
+				"add-also-known-as": "add-alsoKnownAs", "remove-also-known-as": "remove-alsoKnownAs", "ietf-json-patch": "json-patch", "replace": "replace-document"}
+			pm["action"] = fw.Pick(r, []string{legacy[act], legacy[act], strings.ToUpper(act), " " + act, act + " ", strings.Title(act)})
+			ps[i] = pm
 		}},
 		{"delta.patch-value-modified", func(q map[string]interface{}) {
 			ps := dl(q)["patches"].([]interface{})
